@@ -545,12 +545,76 @@ def api_translates():
         for nm in needed:
             out.append((f"scan/api_translates_every_path/{fn}.{nm}", nm in used or f"_{nm}" in used or any(
                 nm in u for u in used), f"{fn} uses {sorted(u for u in used if 'translate' in u)}"))
+    # every value that api.step / amend / static / glob name `tr_...` (what they send to the director) is produced by
+    # translate / translate_back applied to each path: directly, through _keep_affixes(x, translate), element by element
+    # in a comprehension, wrapped in sorted / set / list / tuple, or by a helper of api.py whose returned values are
+    # produced in that way
+    _, apitree = extract.read_module(apimod_path)
+    helpers = {n.name: n for n in apitree.body if isinstance(n, (ast.FunctionDef, ast.AsyncFunctionDef))}
+
+    def translated(e, scope_ok, depth=0):
+        if isinstance(e, ast.Name):
+            return e.id.startswith("tr_") and scope_ok.get(e.id, True)
+        if isinstance(e, (ast.ListComp, ast.SetComp, ast.GeneratorExp)):
+            return translated(e.elt, scope_ok, depth)
+        if isinstance(e, (ast.Tuple, ast.List, ast.Set)):
+            return all(translated(x, scope_ok, depth) for x in e.elts)
+        if isinstance(e, ast.Call):
+            f = ast.unparse(e.func)
+            if f in ("translate", "translate_back"):
+                return True
+            if f == "_keep_affixes":
+                return len(e.args) == 2 and ast.unparse(e.args[1]) in ("translate", "translate_back")
+            if f in ("sorted", "set", "list", "tuple", "frozenset") and len(e.args) == 1:
+                return translated(e.args[0], scope_ok, depth)
+            if f in helpers and depth == 0:
+                return helper_ok(helpers[f])
+        return False
+
+    def helper_ok(fn):
+        rets = [r.value for r in ast.walk(fn) if isinstance(r, ast.Return) and r.value is not None]
+        local_ok = {}
+        for n in ast.walk(fn):
+            if isinstance(n, ast.Assign) and len(n.targets) == 1 and isinstance(n.targets[0], ast.Name) and n.targets[0].id.startswith("tr_"):
+                local_ok[n.targets[0].id] = local_ok.get(n.targets[0].id, True) and translated(n.value, local_ok, 1)
+        return bool(rets) and all(translated(r, local_ok, 1) for r in rets)
+
+    for fn in ("step", "amend", "static", "glob"):
+        _, node = extract.find_def(apimod_path, fn)
+        scope_ok, bad = {}, []
+        for n in ast.walk(node):
+            if isinstance(n, ast.Assign) and len(n.targets) == 1 and isinstance(n.targets[0], ast.Name) and n.targets[0].id.startswith("tr_"):
+                good = translated(n.value, scope_ok)
+                scope_ok[n.targets[0].id] = scope_ok.get(n.targets[0].id, True) and good
+                if not good:
+                    bad.append(f"{n.targets[0].id} = {ast.unparse(n.value)[:80]}")
+        out.append((f"scan/api_translates_every_path/{fn}.elementwise", not bad and bool(scope_ok),
+                    f"not produced by translate applied to each path: {bad}" if bad else f"{len(scope_ok)} translated values"))
     src, node = extract.find_def("stepup/core/executor.py", "Executor._run_command")
-    seg = ast.get_source_segment(src, node)
-    out.append(("scan/api_translates_every_path/ROOT", 'env["ROOT"] = str(Path.cwd().relpath(workdir))' in seg,
-                "ROOT leads from the work directory to the director's directory"))
-    out.append(("scan/api_translates_every_path/HERE", 'env["HERE"] = str(Path(workdir).relpath())' in seg,
-                "HERE leads from the director's directory to the work directory"))
+    # the values stored under env["ROOT"] / env["HERE"], with locals that are assigned once written out
+    once = {}
+    for n in ast.walk(node):
+        if isinstance(n, ast.Assign) and len(n.targets) == 1 and isinstance(n.targets[0], ast.Name):
+            once.setdefault(n.targets[0].id, []).append(n.value)
+
+    class _Inline(ast.NodeTransformer):
+        def visit_Name(self, n):
+            vals = once.get(n.id)
+            if isinstance(n.ctx, ast.Load) and vals is not None and len(vals) == 1 and n.id not in ("workdir", "env"):
+                return self.visit(ast.parse(ast.unparse(vals[0]), mode="eval").body)
+            return n
+
+    def stored(key):
+        vals = [n.value for n in ast.walk(node) if isinstance(n, ast.Assign) and len(n.targets) == 1
+                and isinstance(n.targets[0], ast.Subscript) and ast.unparse(n.targets[0].value) == "env"
+                and isinstance(n.targets[0].slice, ast.Constant) and n.targets[0].slice.value == key]
+        return [ast.unparse(_Inline().visit(ast.parse(ast.unparse(v), mode="eval").body)) for v in vals]
+
+    root, here = stored("ROOT"), stored("HERE")
+    out.append(("scan/api_translates_every_path/ROOT", root == ["str(Path.cwd().relpath(workdir))"],
+                f"ROOT leads from the work directory to the director's directory: {root}"))
+    out.append(("scan/api_translates_every_path/HERE", here == ["str(Path(workdir).relpath())"],
+                f"HERE leads from the director's directory to the work directory: {here}"))
     return out
 
 
